@@ -7,6 +7,9 @@ import GenlmModel.Model.WfsaOps
 import GenlmModel.Model.WfsaOps2
 import GenlmModel.Model.FstOps
 import GenlmModel.Model.PrefixT
+import GenlmModel.Model.IncCky
+import GenlmModel.Model.UCycle
+import GenlmModel.Model.FsmWfsa
 import GenlmModel.Model.Cert
 import GenlmModel.Model.Linear
 import GenlmModel.Generated.Semiring
@@ -216,6 +219,16 @@ def opCert (j : Json) : E Json := do
   | _ => pure ()
   pure (Json.mkObj out)
 
+/-- {"op":"inccky","cfg":CNF grammar,"prefix":[…]} → the columns of the incremental CKY chart of the prefix
+(entries [i, X, w]), the un-normalised next-token weights and the string weight — mirror model of cky.py -/
+def opIncCky (j : Json) : E Json := do
+  let G : CFG Sx K ← cfgOfJson (← getField j "cfg")
+  let p ← sxList (← getField j "prefix")
+  let ch := ckyChart G p
+  let colJ (c : CkyCol Sx K) : Json := .arr (c.map fun e => Json.arr #[.num ⟨e.1.1, 0⟩, sxToJson e.1.2, Wt.toJson e.2]).toArray
+  pure (Json.mkObj [("chart", .arr (ch.map colJ).toArray), ("call", Wt.toJson (incCkyCall G p)),
+    ("p_next", pairsToJson (incCkyPNext G p)), ("parse", Wt.toJson (cfgParse G p))])
+
 def opZn (j : Json) : E Json := do
   let G : CFG Sx K ← cfgOfJson (← getField j "cfg")
   opZnG G j
@@ -378,6 +391,7 @@ def runOpK [DecidableEq K] [HasInv K] [HasStar K] (op : String) (j : Json) : E J
   | "linear" => opLinear (K := K) j
   | "zn" => opZn (K := K) j
   | "mask" => opMask (K := K) j
+  | "inccky" => opIncCky (K := K) j
   | "pn" => opPn (K := K) j
   | "tpn" => opTpn (K := K) j
   | "fst_op" => opFstOp (K := K) j
@@ -472,9 +486,40 @@ def opSemiring (j : Json) : E Json := do
   | _ => throw s!"unknown semiring type {ty}"
 end GenSemi
 
+def lblStr : Option Char → String
+  | some c => c.toString
+  | none => ""
+
+/-- {"op":"fsm_to_wfsa","initial":q,"states":[…],"finals":[…],"map":[[i,cls,j]…],"live":[…],"expand":[[cls,[str…]]…]}
+→ the WFSA the FSM→WFSA step of `interegular_to_wfsa` builds (mirror model, weights exact) -/
+def opFsmToWfsa (j : Json) : E Json := do
+  let initial ← getNat (← getField j "initial")
+  let states ← (← getArr (← getField j "states")).mapM getNat
+  let finals ← (← getArr (← getField j "finals")).mapM getNat
+  let live ← (← getArr (← getField j "live")).mapM getNat
+  let map ← (← getArr (← getField j "map")).mapM fun e => do
+    match ← getArr e with
+    | [a, b, c] => pure ((← getNat a), (← getNat b), (← getNat c))
+    | _ => throw "bad map entry"
+  let expand ← (← getArr (← getField j "expand")).mapM fun e => do
+    match ← getArr e with
+    | [a, l] => pure ((← getNat a), (← (← getArr l).mapM getStr))
+    | _ => throw "bad expand entry"
+  let liveF : Nat → Bool := fun q => decide (q ∈ live)
+  let expandF : Nat → List (List Char) := fun c =>
+    match expand.find? (fun e => e.1 = c) with
+    | some e => e.2.map String.toList
+    | none => []
+  let F : Fsm Nat Nat := ⟨initial, states, finals, map, liveF, expandF⟩
+  let A : WFSA Nat Char Rat := fsmToWfsa (fun n => if n = 0 then 0 else 1 / (n : Rat)) F
+  let pj (l : List (Nat × Rat)) : Json := .arr (l.map fun e => Json.arr #[.num ⟨e.1, 0⟩, .str (ratToString e.2)]).toArray
+  pure (Json.mkObj [("start", pj A.start), ("stop", pj A.stop),
+    ("arcs", .arr (A.arcs.map fun e => Json.arr #[.num ⟨e.src, 0⟩, .str (lblStr e.lbl), .num ⟨e.dst, 0⟩, .str (ratToString e.w)]).toArray)])
+
 def runOp (j : Json) : E Json := do
   let op ← getStr (← getField j "op")
   if op == "semiring" then return (← opSemiring j)
+  if op == "fsm_to_wfsa" then return (← opFsmToWfsa j)
   let R ← match j.getObjVal? "R" with | .ok (.str r) => pure r | _ => pure "Float"
   match R with
   | "Float" | "Real" => (match op with
